@@ -25,8 +25,29 @@ Open Scope Z_scope.
      BUnknownField    err = nil, strict error `unknown field "..."`
      BDuplicateField  err = nil, strict error `duplicate field "..."` (last value wins)
      BUnknownAndDuplicate  err = nil, strict errors of both kinds
-     BInvalidJson     err <> nil (truncated text, wrong top-level type, ...) *)
-Inductive body_class := BValid | BUnknownField | BDuplicateField | BUnknownAndDuplicate | BInvalidJson.
+     BInvalidJson     err <> nil (truncated text, wrong top-level type, ...)
+   and of a well-formed document followed by more bytes - UnmarshalStrict decodes
+   the WHOLE text, unlike a json.Decoder stream, which stops after the first value:
+     BValidTrailingSpace  document + white space / newline only: as BValid
+     BTrailingGarbage     document + non-space text : err <> nil ("invalid character ... after top-level value")
+     BTwoDocuments        two concatenated documents: err <> nil
+     BStrayBrace          document + a stray `}`     : err <> nil *)
+Inductive body_class :=
+| BValid | BUnknownField | BDuplicateField | BUnknownAndDuplicate | BInvalidJson
+| BValidTrailingSpace | BTrailingGarbage | BTwoDocuments | BStrayBrace.
+
+(* err <> nil in every mode *)
+Definition undecodable (c : body_class) : bool :=
+  match c with
+  | BInvalidJson | BTrailingGarbage | BTwoDocuments | BStrayBrace => true
+  | _ => false
+  end.
+(* err = nil, strict errors reported *)
+Definition has_strict_errors (c : body_class) : bool :=
+  match c with
+  | BUnknownField | BDuplicateField | BUnknownAndDuplicate => true
+  | _ => false
+  end.
 
 Record body := mkBody { b_id : Z; b_class : body_class }.
 
@@ -119,11 +140,9 @@ Definition adjust (cfg : config) (c : cache) (k : key) (sent : string) (r : resp
 
 (* kjson.UnmarshalStrict + shouldReportStrictErrors *)
 Definition decode (cfg : config) (b : body) : outcome :=
-  match b_class b with
-  | BValid => OkBody b
-  | BUnknownField | BDuplicateField | BUnknownAndDuplicate => if cfg_strict cfg then Err else OkBody b
-  | BInvalidJson => Err
-  end.
+  if undecodable (b_class b) then Err
+  else if has_strict_errors (b_class b) && cfg_strict cfg then Err
+  else OkBody b.
 
 (* everything Call does after client.Do returned *)
 Definition finish (cfg : config) (c : cache) (k : key) (sent : string) (rp : reply)
@@ -196,13 +215,13 @@ Definition one_call (cfg : config) (c0 : cache) (k : key) (rp : reply) : state :
 
 Definition is_ok (o : outcome) : bool := match o with OkBody _ => true | _ => false end.
 
-Definition body_class_eqb (a b : body_class) : bool :=
-  match a, b with
-  | BValid, BValid | BUnknownField, BUnknownField
-  | BDuplicateField, BDuplicateField | BInvalidJson, BInvalidJson
-  | BUnknownAndDuplicate, BUnknownAndDuplicate => true
-  | _, _ => false
+Definition class_code (c : body_class) : Z :=
+  match c with
+  | BValid => 0 | BUnknownField => 1 | BDuplicateField => 2 | BUnknownAndDuplicate => 3
+  | BInvalidJson => 4 | BValidTrailingSpace => 5 | BTrailingGarbage => 6 | BTwoDocuments => 7
+  | BStrayBrace => 8
   end.
+Definition body_class_eqb (a b : body_class) : bool := class_code a =? class_code b.
 Definition body_eqb (a b : body) : bool :=
   (b_id a =? b_id b) && body_class_eqb (b_class a) (b_class b).
 Definition outcome_eqb (a b : outcome) : bool :=
@@ -278,13 +297,15 @@ Definition served_ok (pairs : list pair) (sent : string) (rp : reply) (o : outco
    304/412: never from undecodable text, and in strict mode never from a body
    with unknown or duplicate fields. *)
 Definition body_acceptable (cfg : config) (b : body) : bool :=
-  match b_class b with
-  | BValid => true
-  | BInvalidJson => false
-  | BUnknownField | BDuplicateField | BUnknownAndDuplicate => negb (cfg_strict cfg)
-  end.
+  negb (undecodable (b_class b)) &&
+  (negb (has_strict_errors (b_class b)) || negb (cfg_strict cfg)).
 Definition accepted_body_ok (cfg : config) (o : outcome) : bool :=
   match o with OkBody b => body_acceptable cfg b | _ => true end.
+
+(* an undecodable body (invalid JSON, or a document followed by anything but
+   white space) is never a successful answer, in any mode, fresh or replayed *)
+Definition decodable_ok (o : outcome) : bool :=
+  match o with OkBody b => negb (undecodable (b_class b)) | _ => true end.
 
 (* without ETag support no If-None-Match header is ever sent *)
 Definition plain_ok (cfg : config) (sent : string) : bool :=
@@ -295,13 +316,12 @@ Definition decode_clause_name (cfg : config) (rp : reply) : string :=
   match rp with
   | TransportError => "decoding"
   | Reply r =>
-      match b_class (r_body r), cfg_strict cfg with
-      | BValid, true => "strict-valid-rejected"
-      | BValid, false => "loose-valid-rejected"
-      | BInvalidJson, _ => "invalid-json-accepted"
-      | _, true => "strict-unknown-or-duplicate-accepted"
-      | _, false => "loose-unknown-or-duplicate-rejected"
-      end
+      let c := b_class (r_body r) in
+      if undecodable c then "undecodable-body-accepted"
+      else if has_strict_errors c then
+        (if cfg_strict cfg then "strict-unknown-or-duplicate-accepted"
+         else "loose-unknown-or-duplicate-rejected")
+      else if cfg_strict cfg then "strict-valid-rejected" else "loose-valid-rejected"
   end.
 
 Definition call_clauses (cfg : config) (pairs : list pair) (sent : string) (rp : reply) (o : outcome)
@@ -310,6 +330,7 @@ Definition call_clauses (cfg : config) (pairs : list pair) (sent : string) (rp :
    ("wrong-retry-delay", retry_ok rp o);
    ("error-accepted", error_ok rp o);
    ("304-body-not-for-sent-etag", served_ok pairs sent rp o);
+   ("undecodable-body-accepted", decodable_ok o);
    (decode_clause_name cfg rp, decode_ok cfg rp o);
    ("strict-invalid-accepted-on-replay", accepted_body_ok cfg o);
    ("plain-sent-if-none-match", plain_ok cfg sent)].
